@@ -391,6 +391,50 @@ func gen(g *vh.Gen) {
 		}
 		g.Emit("sess", fl, fuzzInit, strings.Join(evs, ","))
 	}
+	// raw byte streams (kind bytes; model side = Coq's run_stream):
+	// (a) valid dialogues cut at every byte
+	dialogues := []string{
+		"USER bob\r\nPASS x\r\nSTAT\r\nLIST\r\nUIDL 2\r\nRETR 1\r\nDELE 1\r\nTOP 3 1\r\nQUIT\r\n",
+		"APOP bob x\r\nDELE 2\r\nDELE 3\r\nRSET\r\nDELE 3\r\nLIST\r\nQUIT\r\n",
+		"apop bob x\nCAPA\ndele 1\nqu\u0131t\n",
+		"QUIT\r\nUSER bob\r\n",
+	}
+	nd := g.N(2, len(dialogues))
+	for di := 0; di < nd; di++ {
+		d := dialogues[di]
+		for k := 0; k <= len(d); k++ {
+			fl := "mem"
+			if (di+k)%2 == 1 {
+				fl = "file"
+			}
+			g.Emit("bytes", fl, fuzzInit, vh.HS(d[:k]))
+		}
+	}
+	// (b) garbage: random bytes with the bytes that matter over-represented, overlong lines
+	alpha := []string{"\n", "\n", "\r\n", "\r", " ", " ", "\x00", "\xff", "\x80", "\xc4\xb1", "\xc5\xbf", "\xc4", "A", "Q", "q", "U", "I", "T", "u", "i", "t",
+		"D", "E", "L", "e", "l", "s", "S", "R", "1", "2", "3", "0", "-", "+", "9", ".", "\t",
+		"QUIT", "quit", "DELE 1", "APOP bob x\r\n", "USER bob\n", "PASS\n", "RETR 2\n", "LIST\n", "STAT\r\n"}
+	for i := 0; i < g.N(600, 20000); i++ {
+		var b strings.Builder
+		for j, n := 0, g.Intn(60); j < n; j++ {
+			if g.Chance(0.08) {
+				b.WriteByte(byte(g.Intn(256)))
+			} else {
+				b.WriteString(g.Pick(alpha...))
+			}
+		}
+		if g.Chance(0.03) {
+			b.WriteString(strings.Repeat(g.Pick("x", "\x00", "9", " "), 5000+g.Intn(70000)))
+			if g.Chance(0.5) {
+				b.WriteString("\nSTAT\n")
+			}
+		}
+		fl := "mem"
+		if i%2 == 1 {
+			fl = "file"
+		}
+		g.Emit("bytes", fl, fuzzInit, vh.HS(b.String()))
+	}
 	// exhaustive small dialogues: every pair of transaction commands on a 2-message mailbox
 	cmds := []string{"STAT", "LIST", "LIST 1", "LIST 2", "LIST 3", "UIDL", "UIDL 2", "DELE 1", "DELE 2", "DELE 0", "RETR 1", "RETR 3",
 		"TOP 2 1", "TOP 1 0", "RSET", "NOOP", "QUIT", "CAPA", "USER a", ""}
